@@ -364,6 +364,11 @@ impl SecpGuard {
 #[verifier::external]
 impl core::hash::Hash for Commitment { fn hash<H: core::hash::Hasher>(&self, state: &mut H) { } }
 impl PartialEq for Commitment { #[verifier::external_body] fn eq(&self, o: &Self) -> (r: bool) { unimplemented!() } }
+// derived PartialEq of the 33 commitment bytes: structural equality
+impl vstd::std_specs::cmp::PartialEqSpecImpl for Commitment {
+    open spec fn obeys_eq_spec() -> bool { true }
+    open spec fn eq_spec(&self, other: &Self) -> bool { *self == *other }
+}
 impl Eq for Commitment {}
 // L3: iterating a HashMap by reference, as a vector of entry references (iteration order unspecified)
 pub trait VfHashMapExt<K, V> { fn vf_entries<'a>(&'a self) -> Vec<(&'a K, &'a V)>; }
@@ -375,7 +380,9 @@ impl<K, V> VfHashMapExt<K, V> for HashMap<K, V> {
             &&& forall|i: int| 0 <= i < r@.len() ==> self@.dom().contains(*(#[trigger] r@[i]).0) && self@[*r@[i].0] == *r@[i].1
             &&& forall|i: int, j: int| 0 <= i < j < r@.len() ==> *(#[trigger] r@[i]).0 != *(#[trigger] r@[j]).0
             &&& forall|k: K| #[trigger] self@.dom().contains(k) ==> exists|i: int| 0 <= i < r@.len() && *(#[trigger] r@[i]).0 == k
-        }
+        },
+            // A-alloc: an in-memory collection holds at most isize::MAX elements
+            r@.len() <= usize::MAX / 2,
     { unimplemented!() }
 }
 // `confirmation_ts.clone().and_then(|t| (Utc::now() - t).to_std().ok())` — elapsed time, display only
